@@ -589,6 +589,18 @@ impl S {
                     let signed_for = kv_s(line, "for");
                     if !w.listed.contains(&eth) {
                         finding = bad("not-listed-accepted", format!("claim for {eth} accepted but it is not on the airdrop's list"));
+                    } else if kv(line, "sg").map(|sg| sg != format!("{}:{}", dec.as_ref().map(hex::encode).unwrap_or_default(), hex::encode(personal_digest(&text)))).unwrap_or(false) {
+                        // pure bookkeeping, no curve arithmetic: the harness never produced a signature by the key of the named
+                        // address over this caller's claim text (for addresses it holds no key for, no claim may ever succeed)
+                        let sg = kv(line, "sg").unwrap_or("-");
+                        finding = bad(
+                            "accepted-without-valid-signature",
+                            if sg == "-" {
+                                format!("claim by {sender} for {eth} succeeded with bytes that no key ever signed (the harness did not produce them by signing)")
+                            } else {
+                                format!("claim by {sender} for {eth} succeeded, but the harness produced this signature with the key of 0x{} over another text / for another address", &sg[..40.min(sg.len())])
+                            },
+                        );
                     } else if signed_for.as_deref().map(|f| f != sender).unwrap_or(false) {
                         // from what the harness knows about who signed what — not from the template the contract accepted
                         finding = bad(
@@ -1139,8 +1151,33 @@ fn sign(k: &Key, text: &str, raw_v: bool) -> Vec<u8> {
     let d = personal_digest(text);
     let (sig, rid) = k.sk.sign_prehash_recoverable(&d).expect("sign");
     let mut v = sig.to_bytes().to_vec();
+    // the harness's own record of who signed what: r ↦ (s, address of the signing key, digest of the signed text)
+    let addr = eth_addr_of_pk(k.sk.verifying_key().to_encoded_point(false).as_bytes()).unwrap();
+    SIGNED.with(|m| m.borrow_mut().insert(v[..32].to_vec(), (v[32..64].to_vec(), addr, d)));
     v.push(rid.to_byte() + if raw_v { 0 } else { 27 });
     v
+}
+thread_local! {
+    static SIGNED: std::cell::RefCell<BTreeMap<Vec<u8>, (Vec<u8>, [u8; 20], [u8; 32])>> = std::cell::RefCell::new(BTreeMap::new());
+}
+/// `<address of the key>:<digest of the text>` if the byte string `sig_hex` decodes to is a signature this harness produced
+/// (as produced, or in its other encoding `(r, n − s)`; any `v`), else `-`: bytes nobody's key ever signed
+fn provenance(sig_hex: &str) -> String {
+    let Some(b) = unhex(sig_hex.as_bytes()) else { return "-".into() };
+    if b.len() != 65 {
+        return "-".into();
+    }
+    SIGNED.with(|m| match m.borrow().get(&b[..32]) {
+        Some((s, addr, d)) => {
+            let neg = Option::<Scalar>::from(Scalar::from_repr(FieldBytes::clone_from_slice(s))).map(|x| (-x).to_repr().to_vec());
+            if b[32..64] == s[..] || Some(b[32..64].to_vec()) == neg {
+                format!("{}:{}", hex::encode(addr), hex::encode(d))
+            } else {
+                "-".into()
+            }
+        }
+        None => "-".into(),
+    })
 }
 /// (r, n−s, v with flipped parity): the "other" encoding of the same signature
 fn malleate(sig: &[u8], flip_v: bool) -> Vec<u8> {
@@ -1194,9 +1231,10 @@ fn claim_line(sender: &str, eth: &str, sig: &str) -> String {
     claim_line_for(sender, eth, sig, sender)
 }
 /// `signed_for`: the Stargaze wallet whose claim text the generator signed to obtain `sig` (what the harness knows about
-/// who signed what; carried in the line so that a replay can judge it; the model ignores it)
+/// who signed what; carried in the line so that a replay can judge it; the model ignores it). `sg=` is the harness's record
+/// for these signature bytes: which key signed which digest, or `-` if the harness never produced them by signing.
 fn claim_line_for(sender: &str, eth: &str, sig: &str, signed_for: &str) -> String {
-    format!("claim sender={} eth={} sig={} for={}", hxs(sender), hxs(eth), hxs(sig), hxs(signed_for))
+    format!("claim sender={} eth={} sig={} for={} sg={}", hxs(sender), hxs(eth), hxs(sig), hxs(signed_for), provenance(sig))
 }
 
 /// one claim op of mutation kind `kind`; returns (line, kind label)
@@ -1408,6 +1446,11 @@ fn run_world_case(ses: &mut Session, sut: &mut S, rng: &mut Rng, cx: &Ctx, idx: 
             list.push(k.eth.clone());
         }
     }
+    let zero = format!("0x{}", "0".repeat(40));
+    let zero_listed = rng.chance(1, 4);
+    if zero_listed {
+        list.push(zero.clone());
+    }
     rng.shuffle(&mut list);
     let claims_funded = if rng.chance(1, 4) { rng.range(0, 3) } else { rng.range(3, 30) } as u128;
     let short = if rng.chance(1, 4) { 1 } else { 0 };
@@ -1472,7 +1515,18 @@ fn run_world_case(ses: &mut Session, sut: &mut S, rng: &mut Rng, cx: &Ctx, idx: 
     let times = [WL_START - 1, WL_START, WL_START + 1, WL_END - 1, WL_END, WL_END + 1, MINTER_START - 1, MINTER_START, MINTER_START + 1, NOW0 + 7];
     for _ in 0..n_ops {
         let r = rng.below(100);
-        if r < 70 {
+        if r < 4 {
+            // an address nobody holds a key for, with bytes nobody signed
+            let mut g: Vec<u8> = match rng.below(3) {
+                0 => vec![0u8; 64],
+                1 => vec![0xff; 64],
+                _ => (0..64).map(|_| rng.below(256) as u8).collect(),
+            };
+            g.push(*rng.pick(&[0u8, 1, 27, 28]));
+            let w = *rng.pick(WALLETS);
+            let o = ses.step(sut, &claim_line(w, &zero, &hex::encode(&g)));
+            ses.mark(format!("claim:zero-address-garbage:{}:{}", if zero_listed { "listed" } else { "unlisted" }, first_word(&o)));
+        } else if r < 70 {
             let ki = rng.below(sc.keys.len() as u64) as usize;
             let wi = rng.below(WALLETS.len() as u64) as usize;
             let kind = if rng.chance(11, 20) { rng.below(3) } else { 3 + rng.below(13) };
@@ -1622,6 +1676,8 @@ fn main() {
         "claim:replay-other-wallet:err",
         "claim:other-key:err",
         "cross-wallet-replay:lower-case-template:refused",
+        "unowned:zero-address-listed:inst-ok",
+        "unowned:all-garbage-signature-claims-refused",
         "claim:v-sweep:exactly-the-two-encodings-of-the-right-parity",
         "claim:vother:err",
         "limit2:round1:ok",
@@ -1986,6 +2042,69 @@ fn main() {
               }
             }
         }
+    }
+
+    // ------------------------------------------------------------------ 6c. listed addresses nobody holds a key for (the zero "burn" address of holder
+    // snapshots, 0x00…01, 0xff…ff) × structurally valid but unrecoverable / unrelated signatures × several wallets
+    {
+        let k = new_key(&mut rng, 5);
+        let unowned = [format!("0x{}", "0".repeat(40)), format!("0x{}1", "0".repeat(39)), format!("0x{}", "f".repeat(40)), format!("0x{}", "F".repeat(40))];
+        let mut list: Vec<String> = unowned.to_vec();
+        list.push(k.eth.clone());
+        let tpl = "My Stargaze address is {wallet}";
+        let (_sc, _me) = std_world_list(&mut ses, &mut sut, &cx, vec![k.clone()], list, "unowned-addresses", tpl, 2, 6, 40, 1);
+        if sut.w.as_ref().map(|w| w.listed.contains(&unowned[0])).unwrap_or(false) {
+            ses.mark("unowned:zero-address-listed:inst-ok");
+        }
+        // the secp256k1 group order n
+        let n: Vec<u8> = hex::decode("fffffffffffffffffffffffffffffffebaaedce6af48a03bbfd25e8cd0364141").unwrap();
+        let mut n_minus_1 = n.clone();
+        n_minus_1[31] -= 1;
+        let one: Vec<u8> = { let mut x = vec![0u8; 32]; x[31] = 1; x };
+        let cat = |r: &[u8], s: &[u8], v: u8| { let mut x = r.to_vec(); x.extend_from_slice(s); x.push(v); x };
+        let mut garbage: Vec<(String, Vec<u8>)> = vec![];
+        for v in [0u8, 1, 27, 28, 29] {
+            garbage.push((format!("zeros-v{v}"), cat(&[0u8; 32], &[0u8; 32], v)));
+        }
+        garbage.push(("ff64-1b".into(), cat(&[0xff; 32], &[0xff; 32], 27)));
+        garbage.push(("ff64-1c".into(), cat(&[0xff; 32], &[0xff; 32], 28)));
+        garbage.push(("r=n".into(), cat(&n, &one, 27)));
+        garbage.push(("s=n".into(), cat(&one, &n, 27)));
+        garbage.push(("r=0".into(), cat(&[0u8; 32], &one, 28)));
+        garbage.push(("s=0".into(), cat(&one, &[0u8; 32], 27)));
+        garbage.push(("r=s=n-1".into(), cat(&n_minus_1, &n_minus_1, 0)));
+        garbage.push(("r=s=1".into(), cat(&one, &one, 1)));
+        garbage.push(("random".into(), { let mut x: Vec<u8> = (0..64).map(|_| rng.below(256) as u8).collect(); x.push(27); x }));
+        let wallets = ["acct00001", "acct00002", CREATOR];
+        let mut all_refused = true;
+        for e in &unowned {
+            for (gi, (label, g)) in garbage.iter().enumerate() {
+                for (wi, w) in wallets.iter().enumerate() {
+                    if (gi + wi) % 3 != 0 && !(e == &unowned[0]) {
+                        continue; // every combination for the zero address, a third of them for the others
+                    }
+                    let o = ses.step(&mut sut, &claim_line(w, e, &hex::encode(g)));
+                    all_refused &= o.starts_with("err");
+                    ses.mark(format!("unowned:{}:{label}:{}", &e[..6], first_word(&o)));
+                }
+            }
+            // a genuine signature of somebody else's key, for the caller's own text, naming the unowned address
+            for w in wallets {
+                let o = ses.step(&mut sut, &claim_line(w, e, &signed(&k, tpl, w)));
+                all_refused &= o.starts_with("err");
+                ses.mark(format!("unowned:{}:other-keys-signature:{}", &e[..6], first_word(&o)));
+            }
+        }
+        // garbage for the address whose key exists is refused as well; its genuine signature still works afterwards
+        for (_, g) in garbage.iter().take(7) {
+            let o = ses.step(&mut sut, &claim_line("acct00001", &k.eth, &hex::encode(g)));
+            all_refused &= o.starts_with("err");
+        }
+        let o = ses.step(&mut sut, &claim_line("acct00001", &k.eth, &signed(&k, tpl, "acct00001")));
+        if all_refused && o.starts_with("ok") {
+            ses.mark("unowned:all-garbage-signature-claims-refused");
+        }
+        ses.end_case();
     }
 
     // ------------------------------------------------------------------ 7. anything but ClaimAirdrop: hypothetical + schema-enumerated messages, sudo, migrate
